@@ -26,6 +26,7 @@ Definition expected_io_calls : list (string * string * string * string * string)
   ("net/packet:Packet.packWithCompression", ".Write", "buff", "", "err:_");
   ("net/packet:Packet.packWithCompression", ".Write", "buff", "", "dropped");
   ("net/packet:Packet.packWithCompression", ".WriteTo", "buff", "DataLength", "err:_");
+  ("net/packet:Packet.packWithCompression", "call:compressPacket", "buff", "", "err:err");
   ("net/packet:Packet.packWithCompression", ".Write", "w", "", "err:err");
   ("net/packet:compressPacket", ".WriteTo", "zw", "VarInt(packetID)", "err:_");
   ("net/packet:compressPacket", ".Write", "zw", "", "err:err");
@@ -43,14 +44,17 @@ Definition expected_io_calls : list (string * string * string * string * string)
   ("net/packet:Packet.unpackWithCompression", ".ReadFrom", "r", "PacketID", "err:err");
   ("net/packet:Packet.unpackWithCompression", "io.ReadFull", "r", "", "err:err");
   ("net/packet:Boolean.WriteTo", ".Write", "w", "", "err:err");
+  ("net/packet:Boolean.ReadFrom", "call:readByte", "r", "", "err:err");
   ("net/packet:String.WriteTo", ".WriteTo", "w", "VarInt(len(byteStr))", "err:err");
   ("net/packet:String.WriteTo", ".Write", "w", "", "err:err");
   ("net/packet:String.ReadFrom", ".ReadFrom", "r", "l", "err:err");
-  ("net/packet:String.ReadFrom", "io.ReadFull", "r", "", "err:err");
+  ("net/packet:String.ReadFrom", "call:readBytes", "r", "", "err:err");
   ("net/packet:readByte", ".ReadByte", "r", "", "err:err");
   ("net/packet:readByte", "io.ReadFull", "r", "", "err:err");
   ("net/packet:Byte.WriteTo", ".Write", "w", "", "err:err");
+  ("net/packet:Byte.ReadFrom", "call:readByte", "r", "", "err:err");
   ("net/packet:UnsignedByte.WriteTo", ".Write", "w", "", "err:err");
+  ("net/packet:UnsignedByte.ReadFrom", "call:readByte", "r", "", "err:err");
   ("net/packet:Short.WriteTo", ".Write", "w", "", "err:err");
   ("net/packet:Short.ReadFrom", "io.ReadFull", "r", "", "err:err");
   ("net/packet:UnsignedShort.WriteTo", ".Write", "w", "", "err:err");
@@ -60,8 +64,10 @@ Definition expected_io_calls : list (string * string * string * string * string)
   ("net/packet:Long.WriteTo", ".Write", "w", "", "err:err");
   ("net/packet:Long.ReadFrom", "io.ReadFull", "r", "", "err:err");
   ("net/packet:VarInt.WriteTo", ".Write", "w", "", "err:err");
+  ("net/packet:VarInt.ReadFrom", "call:CreateByteReader", "r", "", "err:byteReader");
   ("net/packet:VarInt.ReadFrom", ".ReadByte", "byteReader", "", "err:err");
   ("net/packet:VarLong.WriteTo", ".Write", "w", "", "err:err");
+  ("net/packet:VarLong.ReadFrom", "call:CreateByteReader", "r", "", "err:byteReader");
   ("net/packet:VarLong.ReadFrom", ".ReadByte", "byteReader", "", "err:err");
   ("net/packet:Position.WriteTo", ".Write", "w", "", "err:err");
   ("net/packet:Position.ReadFrom", ".ReadFrom", "r", "v", "err:err");
@@ -77,7 +83,9 @@ Definition expected_io_calls : list (string * string * string * string * string)
   ("net/packet:ByteArray.WriteTo", ".WriteTo", "w", "VarInt(len(b))", "err:err");
   ("net/packet:ByteArray.WriteTo", ".Write", "w", "", "err:err");
   ("net/packet:ByteArray.ReadFrom", ".ReadFrom", "r", "Len", "err:err");
+  ("net/packet:ByteArray.ReadFrom", "call:readBytes", "r", "", "err:err");
   ("net/packet:ByteArray.ReadFrom", "io.ReadFull", "r", "", "err:err");
+  ("net/packet:readBytes", "io.ReadFull", "r", "", "err:err");
   ("net/packet:UUID.WriteTo", ".Write", "w", "", "err:err");
   ("net/packet:UUID.ReadFrom", "io.ReadFull", "r", "", "err:err");
   ("net/packet:PluginMessageData.WriteTo", ".Write", "w", "", "err:err");
@@ -110,10 +118,12 @@ Definition expected_io_calls : list (string * string * string * string * string)
   ("net/packet:Tuple.ReadFrom", ".ReadFrom", "r", "v.(FieldDecoder)", "err:err");
   ("net/packet:byteReaderWrapper.ReadByte", "io.ReadFull", "r.Reader", "", "err:err");
   ("nbt:reader.ReadByte", ".Read", "r", "", "err:err");
+  ("nbt:Unmarshal", "call:NewDecoder", "bytes.NewReader(data)", "", "nested");
   ("nbt:Unmarshal", "bytes.NewReader", "data", "", "nested");
   ("nbt:Decoder.Decode", ".ReadByte", "d.r", "", "err:err");
   ("nbt:fieldError.Error", ".WriteString", "sb", "", "dropped");
   ("nbt:fieldError.Error", ".WriteString", "sb", "", "dropped");
+  ("nbt:Decoder.unmarshal", "call:readBytes", "d.r", "", "err:err");
   ("nbt:Decoder.unmarshal", ".ReadByte", "d.r", "", "err:err");
   ("nbt:readBytes", "io.ReadFull", "r", "", "err:err");
   ("nbt:Decoder.rawRead", "io.ReadFull", "d.r", "", "err:err");
@@ -127,25 +137,46 @@ Definition expected_io_calls : list (string * string * string * string * string)
   ("nbt:Decoder.readInt32", "io.ReadFull", "d.r", "", "err:err");
   ("nbt:Decoder.readInt64", "io.ReadFull", "d.r", "", "err:err");
   ("nbt:Decoder.readString", "io.ReadFull", "d.r", "", "err:err");
+  ("nbt:Marshal", "call:NewEncoder", "&buf", "", "nested");
   ("nbt:Encoder.Encode", ".Write", "e.w", "", "err:err");
+  ("nbt:Encoder.Encode", "call:writeTag", "e.w", "", "err:err");
   ("nbt:Encoder.writeValue", ".Write", "e.w", "", "err:err");
   ("nbt:Encoder.writeValue", ".Write", "e.w", "", "err:err");
   ("nbt:Encoder.writeValue", ".Write", "e.w", "", "err:err");
+  ("nbt:Encoder.writeValue", "call:writeInt16", "e.w", "", "returned");
+  ("nbt:Encoder.writeValue", "call:writeInt32", "e.w", "", "returned");
+  ("nbt:Encoder.writeValue", "call:writeInt32", "e.w", "", "returned");
+  ("nbt:Encoder.writeValue", "call:writeInt64", "e.w", "", "returned");
+  ("nbt:Encoder.writeValue", "call:writeInt64", "e.w", "", "returned");
+  ("nbt:Encoder.writeValue", "call:writeInt32", "e.w", "", "err:err");
   ("nbt:Encoder.writeValue", ".Write", "e.w", "", "err:err");
+  ("nbt:Encoder.writeValue", "call:writeInt32", "e.w", "", "err:err");
+  ("nbt:Encoder.writeValue", "call:writeInt64", "e.w", "", "err:err");
+  ("nbt:Encoder.writeValue", "call:writeInt16", "e.w", "", "err:err");
   ("nbt:Encoder.writeValue", ".Write", "e.w", "", "err:err");
+  ("nbt:Encoder.writeValue", "call:writeTag", "e.w", "", "err:err");
+  ("nbt:Encoder.writeValue", "call:writeTag", "e.w", "", "err:err");
   ("nbt:Encoder.writeValue", ".Write", "e.w", "", "err:err");
   ("nbt:writeTag", ".Write", "w", "", "err:err");
+  ("nbt:writeTag", "call:writeInt16", "w", "", "err:err");
   ("nbt:writeTag", ".Write", "w", "", "err:err");
   ("nbt:Encoder.writeListHeader", ".Write", "e.w", "", "err:err");
+  ("nbt:Encoder.writeListHeader", "call:writeInt32", "e.w", "", "err:err");
   ("nbt:writeInt16", ".Write", "w", "", "err:err");
   ("nbt:writeInt32", ".Write", "w", "", "err:err");
   ("nbt:writeInt64", ".Write", "w", "", "err:err");
   ("nbt:RawMessage.MarshalNBT", ".Write", "w", "", "err:err");
   ("nbt:RawMessage.UnmarshalNBT", "bytes.NewBuffer", "m.Data[:0]", "", "err:buf");
   ("nbt:RawMessage.UnmarshalNBT", "io.TeeReader", "r", "", "err:tee");
+  ("nbt:RawMessage.UnmarshalNBT", "call:NewDecoder", "tee", "", "nested");
   ("nbt:RawMessage.String", "bytes.NewReader", "m.Data", "", "err:r");
+  ("nbt:RawMessage.String", "call:NewDecoder", "r", "", "err:d");
+  ("nbt:RawMessage.Unmarshal", "call:NewDecoder", "bytes.NewReader(m.Data)", "", "err:d");
   ("nbt:RawMessage.Unmarshal", "bytes.NewReader", "m.Data", "", "nested");
+  ("nbt:RawMessage.UnmarshalDisallowUnknownField", "call:NewDecoder", "bytes.NewReader(m.Data)", "", "err:d");
   ("nbt:RawMessage.UnmarshalDisallowUnknownField", "bytes.NewReader", "m.Data", "", "nested");
+  ("nbt:StringifiedMessage.MarshalNBT", "call:NewEncoder", "w", "", "nested");
+  ("nbt:StringifiedMessage.UnmarshalNBT", "call:NewDecoder", "r", "", "err:d");
   ("nbt:StringifiedMessage.encode", ".ReadByte", "d.r", "", "err:err");
   ("nbt:StringifiedMessage.encode", ".WriteString", "sb", "", "dropped");
   ("nbt:StringifiedMessage.encode", ".WriteString", "sb", "", "dropped");
@@ -186,20 +217,34 @@ Definition expected_io_calls : list (string * string * string * string * string)
   ("nbt/dynbt:Value.unmarshal", "io.ReadFull", "r", "", "err:err");
   ("nbt/dynbt:Value.unmarshal", "io.ReadFull", "r", "", "err:err");
   ("nbt/dynbt:Value.unmarshal", "io.ReadFull", "r", "", "err:err");
+  ("nbt/dynbt:Value.unmarshal", "call:readInt32", "r", "", "err:err");
+  ("nbt/dynbt:Value.unmarshal", "call:appendN", "v.data", "", "err:err");
+  ("nbt/dynbt:Value.unmarshal", "call:readInt16", "r", "", "err:err");
   ("nbt/dynbt:Value.unmarshal", "io.ReadFull", "r", "", "err:err");
   ("nbt/dynbt:Value.unmarshal", ".ReadByte", "r", "", "err:err");
+  ("nbt/dynbt:Value.unmarshal", "call:readInt32", "r", "", "err:err");
+  ("nbt/dynbt:Value.unmarshal", "call:readTag", "r", "", "err:err");
+  ("nbt/dynbt:Value.unmarshal", "call:readInt32", "r", "", "err:err");
+  ("nbt/dynbt:Value.unmarshal", "call:appendN", "v.data", "", "err:err");
+  ("nbt/dynbt:Value.unmarshal", "call:readInt32", "r", "", "err:err");
+  ("nbt/dynbt:Value.unmarshal", "call:appendN", "v.data", "", "err:err");
   ("nbt/dynbt:appendN", "io.ReadFull", "r", "", "err:err");
   ("nbt/dynbt:readTag", ".ReadByte", "r", "", "err:err");
+  ("nbt/dynbt:readTag", "call:readString", "r", "", "err:err");
   ("nbt/dynbt:readInt16", "io.ReadFull", "r", "", "err:err");
   ("nbt/dynbt:readInt32", "io.ReadFull", "r", "", "err:err");
+  ("nbt/dynbt:readString", "call:readInt16", "r", "", "err:err");
   ("nbt/dynbt:readString", "io.ReadFull", "r", "", "err:err");
   ("nbt/dynbt:decodeErr.Error", ".WriteString", "sb", "", "dropped");
   ("nbt/dynbt:decodeErr.Error", ".WriteString", "sb", "", "dropped");
   ("nbt/dynbt:Value.MarshalNBT", ".Write", "w", "", "err:err");
   ("nbt/dynbt:Value.MarshalNBT", ".Write", "w", "", "err:err");
   ("nbt/dynbt:Value.MarshalNBT", ".Write", "w", "", "err:err");
+  ("nbt/dynbt:Value.MarshalNBT", "call:writeInt32", "w", "", "err:err");
+  ("nbt/dynbt:Value.MarshalNBT", "call:writeTag", "w", "", "err:err");
   ("nbt/dynbt:Value.MarshalNBT", ".Write", "w", "", "err:err");
   ("nbt/dynbt:writeTag", ".Write", "w", "", "err:err");
+  ("nbt/dynbt:writeTag", "call:writeInt16", "w", "", "err:err");
   ("nbt/dynbt:writeTag", ".Write", "w", "", "err:err");
   ("nbt/dynbt:writeInt16", ".Write", "w", "", "err:err");
   ("nbt/dynbt:writeInt32", ".Write", "w", "", "err:err");
@@ -257,8 +302,16 @@ Definition in_memory : list string := ["buffer"; "buff"; "zw"; "sb"].
 Definition write_checked e :=
   negb (mem (e_idiom e) write_idioms) || kept (e_handling e) || mem (e_stream e) in_memory.
 
+(* 5. a call of one of the anchor files' own helpers that take the stream (idiom "call:<name>": readByte, readBytes,
+   readTag, writeTag, writeInt32, compressPacket, NewDecoder, CreateByteReader ...) keeps its last result - the error,
+   or the reader it built - or hands it on as an operand of the enclosing expression (`nested`: NewDecoder(r).Decode(v)),
+   unless the stream is one of the in-memory buffers; never `dropped`, never `err:_` *)
+Definition helper_checked e :=
+  negb (String.prefix "call:" (e_idiom e)) || kept (e_handling e) || (e_handling e =? "nested")
+  || mem (e_stream e) in_memory.
+
 Definition policy (t : list (string * string * string * string * string)) : bool :=
-  forallb (fun e => bare_read_ok e && idiom_ok e && read_checked e && write_checked e) t.
+  forallb (fun e => bare_read_ok e && idiom_ok e && read_checked e && write_checked e && helper_checked e) t.
 
 Lemma io_table_recorded : c09_io_calls = expected_io_calls.
 Proof. reflexivity. Qed.
@@ -275,6 +328,8 @@ Proof. reflexivity. Qed.
 Lemma policy_refuses_bare_Read : policy [("net/packet:Short.ReadFrom", ".Read", "r", "", "err:err")] = false.
 Proof. reflexivity. Qed.
 Lemma policy_refuses_bufio : policy [("net:RCONConn.ReadPacket", "bufio.NewReader", "r", "", "err:br")] = false.
+Proof. reflexivity. Qed.
+Lemma policy_refuses_dropped_helper : policy [("nbt:Encoder.writeValue", "call:writeInt32", "e.w", "", "dropped")] = false.
 Proof. reflexivity. Qed.
 Lemma policy_refuses_dropped_write :
   policy [("nbt:writeInt32", ".Write", "w", "", "err:_")] = false /\ policy [("net/packet:Tuple.WriteTo", ".WriteTo", "w", "v.(FieldEncoder)", "dropped")] = false.
